@@ -40,6 +40,10 @@ THE SOFTWARE.
 #include <amgcl/util.hpp>
 #include <amgcl/relaxation/detail/ilu_solve.hpp>
 
+#ifdef AMGCL_VERIF
+namespace amgcl_verif { struct access; }
+#endif
+
 namespace amgcl {
 namespace relaxation {
 
@@ -214,6 +218,9 @@ struct ilut {
     }
 
     private:
+#ifdef AMGCL_VERIF
+        friend struct ::amgcl_verif::access;
+#endif
         typedef typename backend::builtin<value_type, col_type, ptr_type>::matrix build_matrix;
         std::shared_ptr<ilu_solve> ilu;
 
